@@ -247,6 +247,8 @@ pub struct FieldSpec {
     pub raw: Vec<String>,
     /// for Default: expected value expression when an `expression` is given
     pub default_expect: Option<String>,
+    /// inert attributes and doc comments around the educe attributes (`^..` = before them, otherwise after)
+    pub noise: Vec<String>,
 }
 
 #[derive(Clone, Debug, PartialEq, Eq, Hash)]
@@ -258,6 +260,9 @@ pub struct VariantSpec {
     pub attrs: Vec<TAttr>,
     pub split: u8,
     pub raw: Vec<String>,
+    pub noise: Vec<String>,
+    /// how an explicit discriminant is written (decimal, hex, with underscores, suffixed, octal/binary)
+    pub disc_sp: u8,
 }
 
 #[derive(Clone, Debug, PartialEq, Eq, Hash, Default)]
@@ -407,6 +412,59 @@ pub struct TypeSpec {
     pub raw: Vec<String>,
     /// extra lines (helper items) rendered after the type inside its module
     pub extra_items: Vec<String>,
+    pub noise: Vec<String>,
+    /// `#[repr(u128)]` only: every discriminant is written 2^127 higher than the model's value (the model keeps i128
+    /// arithmetic; the shift is uniform because the first variant is explicit, so the order is the same)
+    pub disc_shift: bool,
+}
+
+/// inert attribute lines: `before` selects the ones marked `^`
+fn render_noise(noise: &[String], before: bool, indent: &str, out: &mut String) {
+    for n in noise {
+        match (n.strip_prefix('^'), before) {
+            (Some(x), true) => writeln!(out, "{indent}{x}").unwrap(),
+            (None, false) => writeln!(out, "{indent}{n}").unwrap(),
+            _ => {},
+        }
+    }
+}
+
+/// the primitive integer type named in a repr list
+pub fn repr_int(repr: Option<&str>) -> Option<&str> {
+    repr.and_then(|r| r.split(',').map(|p| p.trim()).find(|p| matches!(*p, "u8" | "u16" | "u32" | "u64" | "u128" | "usize" | "i8" | "i16" | "i32" | "i64" | "i128" | "isize")))
+}
+
+/// an explicit discriminant in one of the literal spellings the language allows
+pub fn render_disc(d: i128, sp: u8, repr: Option<&str>, shift: bool) -> String {
+    if shift {
+        let u = (d as u128).wrapping_add(1u128 << 127);
+        return match sp % 3 {
+            0 => format!("{u}"),
+            1 => format!("{u:#x}"),
+            _ => format!("{u}u128"),
+        };
+    }
+    let neg = d < 0;
+    let a = d.unsigned_abs();
+    let sign = if neg { "-" } else { "" };
+    match sp % 6 {
+        1 if !neg => format!("{a:#x}"),
+        2 => {
+            let digits = a.to_string();
+            let mut o = String::new();
+            for (i, c) in digits.chars().enumerate() {
+                if i > 0 && (digits.len() - i) % 3 == 0 {
+                    o.push('_');
+                }
+                o.push(c);
+            }
+            format!("{sign}{o}")
+        },
+        3 => format!("{sign}{a}{}", repr_int(repr).unwrap_or("isize")),
+        4 if !neg => format!("{a:#o}"),
+        5 if !neg => format!("{a:#b}"),
+        _ => format!("{sign}{a}"),
+    }
 }
 
 // ------------------------------------------------------------------------------------------ spelling
@@ -582,10 +640,12 @@ fn render_attr_lines(items: &[String], split: u8, indent: &str, out: &mut String
 impl FieldSpec {
     fn render(&self, indent: &str, with_pub: bool, out: &mut String) {
         let items: Vec<String> = self.attrs.iter().map(render_fattr).collect();
+        render_noise(&self.noise, true, indent, out);
         render_attr_lines(&items, self.split, indent, out);
         for r in &self.raw {
             writeln!(out, "{indent}{r}").unwrap();
         }
+        render_noise(&self.noise, false, indent, out);
         let _ = with_pub;
         match &self.name {
             Some(n) => writeln!(out, "{indent}{n}: {},", self.ty.src).unwrap(),
@@ -625,6 +685,7 @@ impl TypeSpec {
         if let Some(r) = &self.repr {
             writeln!(o, "#[repr({r})]").unwrap();
         }
+        render_noise(&self.noise, true, "", &mut o);
         if educe_attrs {
             let items: Vec<String> = self.traits.iter().map(render_tattr).collect();
             render_attr_lines(&items, self.split, "", &mut o);
@@ -632,6 +693,7 @@ impl TypeSpec {
                 writeln!(o, "{r}").unwrap();
             }
         }
+        render_noise(&self.noise, false, "", &mut o);
         let kw = match self.kind {
             Kind::Struct => "struct",
             Kind::Enum => "enum",
@@ -670,6 +732,7 @@ impl TypeSpec {
             Kind::Enum => {
                 writeln!(o, "{wc} {{").unwrap();
                 for v in &self.variants {
+                    render_noise(&v.noise, true, "    ", &mut o);
                     if educe_attrs {
                         let items: Vec<String> = v.attrs.iter().map(render_tattr).collect();
                         render_attr_lines(&items, v.split, "    ", &mut o);
@@ -677,6 +740,7 @@ impl TypeSpec {
                             writeln!(o, "    {r}").unwrap();
                         }
                     }
+                    render_noise(&v.noise, false, "    ", &mut o);
                     match v.shape {
                         Shape::Unit => write!(o, "    {}", v.name).unwrap(),
                         Shape::Named => {
@@ -695,7 +759,7 @@ impl TypeSpec {
                         },
                     }
                     if let Some(d) = v.disc {
-                        write!(o, " = {d}").unwrap();
+                        write!(o, " = {}", render_disc(d, v.disc_sp, self.repr.as_deref(), self.disc_shift)).unwrap();
                     }
                     writeln!(o, ",").unwrap();
                 }
@@ -709,6 +773,8 @@ impl TypeSpec {
         if educe_attrs {
             f.render(indent, false, o);
         } else {
+            render_noise(&f.noise, true, indent, o);
+            render_noise(&f.noise, false, indent, o);
             match &f.name {
                 Some(n) => writeln!(o, "{indent}{n}: {},", f.ty.src).unwrap(),
                 None => writeln!(o, "{indent}{},", f.ty.src).unwrap(),
